@@ -119,7 +119,17 @@ func ReadMultiStatus(b []byte) (*MultiStatus, error) {
 // HrefPath decodes an href (absolute URI or absolute path, RFC 4918 §8.3) to its path.
 func HrefPath(h string) (string, error) {
 	h = strings.TrimSpace(h)
-	if i := strings.Index(h, "://"); i > 0 && !strings.Contains(h[:i], "/") {
+	if strings.HasPrefix(h, "//") {
+		// RFC 3986 4.2: a reference beginning with two slashes is a network-path reference - what follows is an
+		// authority, not a path segment (RFC 4918 8.3 allows only absolute URIs and path-absolute references,
+		// whose first segment is not empty)
+		rest := h[2:]
+		j := strings.IndexAny(rest, "/?#")
+		if j < 0 {
+			return "", nil
+		}
+		h = rest[j:]
+	} else if i := strings.Index(h, "://"); i > 0 && !strings.Contains(h[:i], "/") {
 		rest := h[i+3:]
 		j := strings.IndexByte(rest, '/')
 		if j < 0 {
